@@ -61,12 +61,12 @@ def _e2_plan(prop, tier):
         "rule": E2_RULE,
         "batches": [
             {"engine": "e2_history", "label": "sweep", "n": 192, "indexed": True, "kwargs": {"sweep": True, "light": q}, "timeout": 900.0},
-            {"engine": "e2_history", "label": "hist", "n": 200 if q else 20000, "timeout": 600.0},
-            {"engine": "e2_history", "label": "hist-faults", "n": 100 if q else 10000, "kwargs": {"faults": True}, "timeout": 600.0},
-            {"engine": "e2_history", "label": "hist-generated", "n": 80 if q else 5000, "kwargs": {"generated": True}, "timeout": 600.0},
+            {"engine": "e2_history", "label": "hist", "n": 140 if q else 20000, "timeout": 600.0},
+            {"engine": "e2_history", "label": "hist-faults", "n": 60 if q else 10000, "kwargs": {"faults": True}, "timeout": 600.0},
+            {"engine": "e2_history", "label": "hist-generated", "n": 64 if q else 5000, "kwargs": {"generated": True}, "timeout": 600.0},
             {"engine": "e2_history", "label": "blocks", "n": 28 if q else 280, "indexed": True, "kwargs": {"blocks": True}, "timeout": 900.0},
-            {"engine": "e2_history", "label": "two-trees", "n": 48 if q else 3000, "kwargs": {"trees": True}, "timeout": 600.0},
-            {"engine": "e2_history", "label": "disk", "n": 48 if q else 3000, "kwargs": {"disk": True}, "timeout": 600.0},
+            {"engine": "e2_history", "label": "two-trees", "n": 32 if q else 3000, "kwargs": {"trees": True}, "timeout": 600.0},
+            {"engine": "e2_history", "label": "disk", "n": 32 if q else 3000, "kwargs": {"disk": True}, "timeout": 600.0},
         ],
         "probes": ["parse.hits", "template.hits", "group.hits", "judged_op_hit_entry_touched_before", "fault.abort_fired", "op.LAZY_STEP"],
         "assumptions": [
@@ -167,6 +167,7 @@ def _c20_plan(prop, tier):
             {"engine": "e1_txn", "label": "txn", "n": 2500 if q else 200000, "timeout": 120.0},
             {"engine": "e5_optout", "label": "optout", "n": 1500 if q else 60000, "timeout": 300.0},
             {"engine": "e3_pool", "label": "pool-optout", "n": 40 if q else 3000, "kwargs": {"profile": "optout", "schedules": 2}, "timeout": 900.0},
+            {"engine": "e2_history", "label": "ignore-history", "n": 64 if q else 4000, "kwargs": {"ignore_history": True}, "timeout": 600.0},
         ],
         "probes": ["drop.ignored_line", "ignored_lines_checked", "skip.stdin_checked", "fault.edit_touches_ignored_line", "optout.skip_files_checked", "ignore.inputs_that_changed"],
         "assumptions": [
